@@ -233,6 +233,10 @@ def run(rep, tier, rng):
         cases.append([dict(cfg=evalgen.CFG, symbols=evalgen.SYMS, code=code, kind='fstr', filename='/tmp/prog.yaml' if i % 2 else None)])
     for i in range(20):
         cases.append([dict(cfg=evalgen.CFG, symbols={}, code=rng.choice(['f"{a} and {k}"', "f'{a + 1}-{s}'", 'f"{lst}"']).replace('{k}', '{b}'), kind='fstr-implicit', filename='/tmp/prog.yaml')])
+    # the shortest f-strings (an empty one is a valid f-string: the length test of FStrNode is an off-by-one away from rejecting it)
+    for code in ('f""', "f''", 'f"x"', "f'{a}'", 'f" "'):
+        cases.append([dict(cfg=evalgen.CFG, symbols={}, code=code, kind='fstr', filename='/tmp/prog.yaml')])
+        cases.append([dict(cfg=evalgen.CFG, symbols={}, code=code, kind='fstr-implicit', filename='/tmp/prog.yaml')])
     # histories: the same multi-line program built again with other symbols / config (D11b), plus histories that must be clean
     for i in range(n // 8):
         code = rng.choice(['x0 = 1\n(k1, b, x0)', '(k1, b)', 'def f(p):\n    return p + k1\nf(b)', 'import math\nk1 + b', 'f"{k1}-{b}"'])
